@@ -98,8 +98,20 @@ static void free_all(void)
 
 /* ------------------------------------------------------------------ callbacks */
 static size_t cur_siz = 1;
-static char dtbuf[1 << 16];
+static char *dtbuf;           /* destructor log: grows as needed (libc malloc, not the shim) */
+static size_t dtcap;
 static size_t dtlen;
+static void dt_room(size_t extra)
+{
+    if (dtlen + extra + 8 > dtcap)
+    {
+        size_t cap = dtcap ? dtcap * 2 : (1u << 16);
+        while (dtlen + extra + 8 > cap) { cap *= 2; }
+        dtbuf = (char *)realloc(dtbuf, cap);
+        if (!dtbuf) { abort(); }
+        dtcap = cap;
+    }
+}
 
 static void hexout(char *dst, size_t *len, size_t cap, void const *p, size_t n)
 {
@@ -110,8 +122,9 @@ static void hexout(char *dst, size_t *len, size_t cap, void const *p, size_t n)
 
 static void dtor_cb(void *p)
 {
-    if (dtlen && dtlen + 2 < sizeof(dtbuf)) { dtbuf[dtlen++] = ','; }
-    hexout(dtbuf, &dtlen, sizeof(dtbuf), p, cur_siz);
+    dt_room(2 * cur_siz + 2);
+    if (dtlen) { dtbuf[dtlen++] = ','; }
+    hexout(dtbuf, &dtlen, dtcap, p, cur_siz);
 }
 
 static int cmp_cb(void const *l, void const *r) { return memcmp(l, r, cur_siz); }
@@ -159,7 +172,7 @@ static void print_ptr(void const *base, size_t siz, size_t lim, void const *p)
 
 static void print_tail(void)
 {
-    printf(" d=[%.*s] e=[%.*s]", (int)dtlen, dtbuf, (int)evlen, evbuf);
+    printf(" d=[%.*s] e=[%.*s]", (int)dtlen, dtbuf ? dtbuf : "", (int)evlen, evbuf);
 }
 
 static void print_arr(char const *tag, int present, void const *base, size_t siz, size_t num, size_t mem)
